@@ -40,6 +40,87 @@ namespace GoLucene
 /-- the double quote and the colon are neither letters nor digits (true of unicode.IsLetter / IsDigit) -/
 def Cls.quoteColonNotAlnum (k : Cls) : Prop := k.isAlnum 34 = false ∧ k.isAlnum 58 = false
 
+/-! ## 0. `unescape` (parse.go, fix F13): general facts, reused by the escaping clause (Proofs/EscapedVerbatim.lean) and
+   by C12 (Proofs/JsonParse.lean) -/
+
+theorem unescape_nil : unescape [] = [] := by rw [unescape]
+
+theorem unescape_bsl_single : unescape [92] = [] := by rw [unescape]; rfl
+
+/-- an escape sequence: the backslash goes, the escaped byte — whatever it is, a backslash included — stays -/
+theorem unescape_bsl_cons (d : UInt8) (rest : Bytes) : unescape (92 :: d :: rest) = d :: unescape rest := by
+  rw [unescape]; rfl
+
+/-- a byte other than the backslash is copied -/
+theorem unescape_cons_of_ne (c : UInt8) (hc : c ≠ 92) (t : Bytes) : unescape (c :: t) = c :: unescape t := by
+  have h : (c == 92) = false := by simpa using hc
+  cases t with
+  | nil => simp [unescape, h]
+  | cons d rest => simp [unescape, h]
+
+/-- a backslash-free prefix is copied -/
+theorem unescape_append_of_no_bsl : ∀ (a t : Bytes), (∀ c ∈ a, c ≠ 92) → unescape (a ++ t) = a ++ unescape t
+  | [], _, _ => rfl
+  | c :: a, t, h => by
+    rw [List.cons_append, unescape_cons_of_ne c (h c (by simp)),
+      unescape_append_of_no_bsl a t (fun x hx => h x (by simp [hx]))]
+    rfl
+
+/-- without a backslash there is nothing to unescape -/
+theorem unescape_of_no_bsl (a : Bytes) (h : ∀ c ∈ a, c ≠ 92) : unescape a = a := by
+  have := unescape_append_of_no_bsl a [] h
+  rwa [List.append_nil, unescape_nil, List.append_nil] at this
+
+theorem unescape_of_any_false (a : Bytes) (h : a.any (· == 92) = false) : unescape a = a :=
+  unescape_of_no_bsl a (fun c hc => by
+    rw [List.any_eq_false] at h
+    simpa using h c hc)
+
+/-- unescaping only removes bytes -/
+theorem unescape_sublist : ∀ (n : Nat) (w : Bytes), w.length ≤ n → (unescape w).Sublist w := by
+  intro n
+  induction n with
+  | zero =>
+    intro w h
+    have : w = [] := List.length_eq_zero_iff.mp (by omega)
+    subst this
+    rw [unescape_nil]
+    exact List.Sublist.refl _
+  | succ n ih =>
+    intro w hl
+    cases w with
+    | nil => rw [unescape_nil]; exact List.Sublist.refl _
+    | cons c t =>
+      by_cases hc : c = 92
+      · subst hc
+        cases t with
+        | nil => rw [unescape_bsl_single]; exact List.nil_sublist _
+        | cons d rest =>
+          rw [unescape_bsl_cons]
+          exact .cons _ (.cons_cons _ (ih rest (by simp at hl ⊢; omega)))
+      · rw [unescape_cons_of_ne c hc]
+        exact .cons_cons _ (ih t (by simp at hl ⊢; omega))
+
+theorem mem_of_mem_unescape {x : UInt8} {w : Bytes} (h : x ∈ unescape w) : x ∈ w :=
+  (unescape_sublist _ w (Nat.le_refl _)).subset h
+
+/-- **unescape inverts escaping, byte level**: put a backslash before every byte of a set that contains the backslash
+    itself (and before any others one likes) — `unescape` gives the text back -/
+theorem unescape_escapeBytes (p : UInt8 → Bool) (hp : p 92 = true) : ∀ w : Bytes,
+    unescape (w.flatMap (fun c => if p c then [92, c] else [c])) = w
+  | [] => by simp [unescape_nil]
+  | c :: w => by
+    have ih := unescape_escapeBytes p hp w
+    rw [List.flatMap_cons]
+    cases h : p c with
+    | true =>
+      simp only [if_true, List.cons_append, List.nil_append]
+      rw [unescape_bsl_cons, ih]
+    | false =>
+      have hc : c ≠ 92 := by intro e; subst e; rw [hp] at h; cases h
+      simp only [Bool.false_eq_true, if_false, List.cons_append, List.nil_append]
+      rw [unescape_cons_of_ne c hc, ih]
+
 namespace QuotedVerbatim
 open NoPanic (sp_nil sp_expr sp_col sp_str)
 
